@@ -4,6 +4,10 @@ C12 — Sampling is exact inverse-CDF selection in stored outcome order.
 Correspondence: the real `rand`/`sample` against the Lean scan instantiated at `Float`
 (IEEE double addition, the same operation CPython performs), compared index by index,
 exactly.  Oracle: a direct reading of the statement on the real code.
+
+The statement speaks of the distribution's probabilities at the time of the draw: every case may continue with
+a history (`hist`) in which the object that has just been sampled is edited in place and sampled again; the
+expected probabilities of each round come from a plain table the edits are defined on (`run_history`).
 """
 import math
 
@@ -21,7 +25,11 @@ class C12(object):
     rule = ("pmfs of 1..10 stored outcomes (dyadic, tenths, random, with leading/trailing/interior stored zeros, "
             "float sum below 1), bases linear/2/e/10/3.5/0.5, scalar and joint; for each pmf the random numbers are "
             "every float partial sum F_i, its two float neighbours, 0, the largest float below 1 and interior points; "
-            "a case is non-trivial when it has >= 2 positive entries and at least one boundary u")
+            "a case is non-trivial when it has >= 2 positive entries and at least one boundary u; "
+            "then 0-3 rounds of edits of the same, already sampled object (d[o]=v on stored and on new members, "
+            "moves/swaps of probability, del d[o], normalize(), writes into d.pmf, set_base), each round followed by "
+            "the whole check (explicit single/size/size>=130, seeded and own generator) with the random numbers "
+            "recomputed from the partial sums of the edited table")
     tolerances = {'indices': 'exact'}
     exhaustive = {}
     modelled = ("IEEE-754 double addition is shared by CPython and the Lean runtime (trusted); theorems are over an "
@@ -83,15 +91,98 @@ class C12(object):
         for _ in range(4):
             us.append(rng.random())
         rng.shuffle(us)
-        return {'pmf': [f2bits(p) for p in pmf], 'base': base, 'joint': joint, 'us': [f2bits(u) for u in us],
+        case = {'pmf': [f2bits(p) for p in pmf], 'base': base, 'joint': joint, 'us': [f2bits(u) for u in us],
                 'seed': rng.randrange(2 ** 31), 'zeros': zs, 'kind': kind, 'big': rng.choice([130, 130, 257, 1000])}
+        case['hist'] = self.gen_hist(rng, len(pmf), joint)
+        return case
+
+    # A history: the SAME object, already sampled, is changed (rounds of edits) and sampled again after every round.
+    # Operations name stored outcomes by their position in the initial table and are interpreted on a plain
+    # probability table kept by `run` (never on dit's internals):
+    #   ['set', i, w]        d[o_i] = w (a weight; the round is normalised at its end)
+    #   ['move', i, j, f]    a fraction f of the probability of o_i goes to o_j (two assignments; f = 1 empties o_i)
+    #   ['swap', i, j]       o_i and o_j exchange their probabilities (two assignments)
+    #   ['del', i]           del d[o_i]
+    #   ['normalize']        d.normalize()
+    #   ['pmfwrite', ws]     d.pmf[:] = the weights ws (cut to the stored length, normalised) in the object's base
+    #   ['setbase', b]       d.set_base(b)
+    EDIT_KINDS = ['move', 'move', 'swap', 'set', 'set', 'del', 'pmfwrite', 'setbase', 'new']
+
+    def gen_hist(self, rng, n, joint):
+        rounds = []
+        for _ in range(rng.choice([0, 1, 1, 2, 2, 3])):
+            ops = []
+            for _ in range(rng.choice([1, 1, 2, 3])):
+                k = rng.choice(self.EDIT_KINDS)
+                i = rng.randrange(n)
+                j = rng.randrange(n)
+                if k == 'move':
+                    ops.append(['move', i, j, rng.choice([1.0, 1.0, 0.5, 0.25, round(rng.random(), 3)])])
+                elif k == 'swap':
+                    ops.append(['swap', i, j])
+                elif k == 'set':
+                    ops.append(['set', i, rng.choice([0.0, 0.0, 0.125, 0.25, 0.5, 1.0, 3.0, round(rng.random(), 3)])])
+                elif k == 'new':
+                    # joint tables: a member of the sample space that may not be stored yet
+                    top = 4 * ((n - 1) // 4 + 1) if (joint and n >= 4) else n
+                    ops.append(['set', rng.randrange(top), rng.choice([0.125, 0.5, 1.0])])
+                elif k == 'del':
+                    ops.append(['del', i])
+                    if rng.random() < 0.5:
+                        ops.append(['normalize'])
+                elif k == 'pmfwrite':
+                    ops.append(['pmfwrite', [rng.choice([0, 0, 1, 1, 2, 3, 5]) for _ in range(24)]])
+                else:
+                    ops.append(['setbase', rng.choice(BASES)])
+            rounds.append({'ops': ops, 'us': [f2bits(rng.random()) for _ in range(3)],
+                           'seed': rng.randrange(2 ** 31)})
+        return rounds
 
     @staticmethod
     def near_boundary(cums, us, eps=1e-9):
         """Is some uniform within eps of a cumulative boundary (a base conversion may then move it across)?"""
         return any(abs(u - c) <= eps for u in us for c in cums)
 
+    @staticmethod
+    def judge(lin, groups):
+        """The statement read directly in float arithmetic: every returned stored index has positive probability and
+        its cumulative interval [F(i-1), F(i)) contains u (u at or above the float total: the last positive one).
+        `groups` = (label, returned indices, uniforms); returns the first violation as a message, or None."""
+        cums = []
+        tot = 0.0
+        for p in lin:
+            tot += p
+            cums.append(tot)
+        for which, got, uu in groups:
+            for u, i in zip(uu, got):
+                if not isinstance(i, int):
+                    return 'rand(%s) returned %s' % (which, i)
+                elif not (lin[i] > 0):
+                    return 'rand(%s) returned stored outcome #%d of probability %r for u=%r' % (which, i, lin[i], u)
+                elif u < cums[-1]:
+                    lo = cums[i - 1] if i > 0 else 0.0
+                    if not (lo <= u < cums[i]):
+                        return ('rand(%s) returned outcome #%d for u=%r, but its cumulative interval is [%r, %r)'
+                                % (which, i, u, lo, cums[i]))
+                else:
+                    lastpos = max(j for j, p in enumerate(lin) if p > 0)
+                    if i != lastpos:
+                        return ('u=%r is at or above the float total %r; expected the last positive outcome #%d, got #%d'
+                                % (u, cums[-1], lastpos, i))
+        return None
+
     def shrink(self, case):
+        hist = case.get('hist') or []
+        if hist:
+            c = dict(case)
+            c['hist'] = hist[:-1]
+            yield c
+            for ri, rd in enumerate(hist):
+                for oi in range(len(rd['ops'])):
+                    if len(rd['ops']) > 1:
+                        c = dict(case)
+                        c['hist'] = hist[:ri] + [dict(rd, ops=rd['ops'][:oi] + rd['ops'][oi + 1:])] + hist[ri + 1:]
+                        yield c
         us = case['us']
         if len(us) > 1:
             for i in range(len(us)):
@@ -174,28 +265,9 @@ class C12(object):
             cums.append(tot)
         if explicit_touches_prng:
             r.oracle_fail = 'drawing with explicit random numbers advanced a generator (the draws of a later call are no longer the generator\'s next uniforms)'
-        for which, got, uu in (('single', impl_single, us), ('size', impl_many, us), ('size>=130', impl_big, big)):
-            if r.oracle_fail:
-                break
-            for u, i in zip(uu, got):
-                if not isinstance(i, int):
-                    r.oracle_fail = 'rand(%s) returned %s' % (which, i)
-                elif not (lin[i] > 0):
-                    r.oracle_fail = 'rand(%s) returned stored outcome #%d of probability %r for u=%r' % (which, i, lin[i], u)
-                elif u < cums[-1]:
-                    lo = cums[i - 1] if i > 0 else 0.0
-                    if not (lo <= u < cums[i]):
-                        r.oracle_fail = ('rand(%s) returned outcome #%d for u=%r, but its cumulative interval is [%r, %r)'
-                                         % (which, i, u, lo, cums[i]))
-                else:
-                    lastpos = max(j for j, p in enumerate(lin) if p > 0)
-                    if i != lastpos:
-                        r.oracle_fail = ('u=%r is at or above the float total %r; expected the last positive outcome #%d, got #%d'
-                                         % (u, cums[-1], lastpos, i))
-                if r.oracle_fail:
-                    break
-            if r.oracle_fail:
-                break
+        if not r.oracle_fail:
+            r.oracle_fail = self.judge(lin, (('single', impl_single, us), ('size', impl_many, us),
+                                             ('size>=130', impl_big, big)))
         # exponentiation of log pmfs: the linear pmf used must be the specified one
         if not r.oracle_fail:
             for a, b in zip(lin, pmf_in):
@@ -236,7 +308,163 @@ class C12(object):
             r.mismatch = 'rand(size=%d, rand=us tiled) differs from the model scan' % len(big)
         r.detail = {'pmf_linear': lin, 'us': us, 'impl_single': impl_single, 'impl_many': impl_many,
                     'model_scan': scan, 'model_with_fallback': scanf}
+        # ---- the same object, edited after it has been sampled, and sampled again
+        if not r.bad() and case.get('hist'):
+            table = dict((o, p) for o, p in zip(outcomes, lin))
+            self.run_history(case, d, table, r, drv)
         return r
+
+    def outcome_of(self, case, i):
+        return (i // 4, i % 4) if case['joint'] else i
+
+    def run_history(self, case, d, table, r, drv):
+        """Rounds of edits of the already-sampled object `d`, each followed by the whole sampling check on the
+        object's CURRENT probabilities.  `table` (outcome -> linear probability) is the plain table the edits are
+        defined on; the expected probabilities come from it, the order of the stored outcomes from `d.outcomes`."""
+        from canon import bits2f
+        log = []
+        r.detail['history'] = log
+        r.features.append('hist=%d' % len(case['hist']))
+        for ri, rd in enumerate(case['hist']):
+            applied = []
+            try:
+                for op in rd['ops']:
+                    self.apply_edit(case, d, table, op, applied, r)
+                mass = math.fsum(table.values())
+                if not (mass > 0):
+                    r.features.append('hist-null-mass')          # nothing left to sample from: the history ends
+                    return
+                if abs(mass - 1.0) > 1e-9:                       # rand is specified for normalised tables only
+                    self.apply_edit(case, d, table, ['normalize'], applied, r)
+                # observation: stored order and the current linear probabilities
+                outs = list(d.outcomes)
+                lin = [float(x) for x in (d.ops.exp(d.pmf) if d.is_log() else d.pmf)]
+            except Exception as e:  # noqa
+                r.oracle_fail = 'round %d of edits %s raised %s: %s' % (ri, applied, type(e).__name__, e)
+                return
+            where = 'after round %d of edits %s on the sampled object: ' % (ri, applied)
+            entry = {'round': ri, 'edits': applied, 'outcomes': [repr(o) for o in outs], 'pmf_linear': lin,
+                     'table': sorted((repr(o), p) for o, p in table.items())}
+            log.append(entry)
+            # the current probabilities are those of the edited table
+            if len(lin) != len(outs) or len(set(outs)) != len(outs):
+                r.oracle_fail = where + 'outcomes %r and pmf %r are not a table' % (outs, lin)
+                return
+            for o, p in table.items():
+                if p > 0 and o not in outs:
+                    r.oracle_fail = where + 'outcome %r of probability %r is not stored' % (o, p)
+                    return
+            for o, a in zip(outs, lin):
+                b = table.get(o, 0.0)
+                if not (abs(a - b) <= 1e-12 + 1e-9 * abs(b)):
+                    r.oracle_fail = where + 'probability of %r is %r, the edited table has %r' % (o, a, b)
+                    return
+            if sum(1 for p in lin if p > 0) >= 2:
+                r.features.append('hist-nontrivial')
+            # random numbers chosen for the CURRENT table: every float partial sum and its neighbours, 0, max below 1
+            us = [0.0, float(np.nextafter(1.0, 0.0))] + [bits2f(b) for b in rd['us']]
+            tot = 0.0
+            for p in lin:
+                tot += p
+                for u in (tot, float(np.nextafter(tot, 0.0)), float(np.nextafter(tot, 2.0))):
+                    if 0.0 <= u < 1.0:
+                        us.append(u)
+            index = {o: i for i, o in enumerate(outs)}
+
+            def idx(sample):
+                return [index.get(o, 'not-an-outcome:%r' % (o,)) for o in sample]
+            try:
+                single = idx([d.rand(rand=u) for u in us])
+                many = idx(d.rand(size=len(us), rand=np.array(us)))
+                reps = -(-130 // len(us))
+                big = us * reps
+                bigs = idx(d.rand(size=len(big), rand=np.array(big)))
+                k = 6
+                g_us = [float(x) for x in np.random.RandomState(rd['seed']).rand(k)]
+                g_a = idx(d.rand(size=k, prng=np.random.RandomState(rd['seed'])))
+                own = np.random.RandomState()
+                own.set_state(d.prng.get_state())
+                o_us = [float(x) for x in own.rand(k)]
+                o_a = idx(d.rand(size=k))
+            except Exception as e:  # noqa
+                r.oracle_fail = where + 'rand raised %s: %s' % (type(e).__name__, e)
+                return
+            entry.update({'us': us, 'impl_single': single, 'impl_many': many})
+            msg = self.judge(lin, (('single', single, us), ('size', many, us), ('size>=130', bigs, big),
+                                   ('prng=RandomState(seed)', g_a, g_us), ('own prng', o_a, o_us)))
+            if msg:
+                r.oracle_fail = where + msg
+                return
+            # correspondence with the model scan on the current table
+            scan, scanf = drv.call('samplef', [[f2bits(p) for p in lin], [f2bits(u) for u in us]])
+            entry['model_with_fallback'] = scanf
+            if single != scanf:
+                r.mismatch = where + 'rand(rand=u) indices %s != model %s' % (single, scanf)
+            elif many != scanf:
+                r.mismatch = where + 'rand(size=n, rand=us) indices %s != model %s' % (many, scanf)
+            elif bigs != scanf * reps:
+                r.mismatch = where + 'rand(size=%d, rand=us tiled) differs from the model scan' % len(big)
+            if r.mismatch:
+                return
+
+    def apply_edit(self, case, d, table, op, applied, r):
+        """One edit on the real object and, by its definition, on the plain table."""
+        def val(p):                                            # a probability in the object's current base
+            return float(d.ops.log(p)) if d.is_log() else float(p)
+
+        def assign(o, p):
+            d[o] = val(p)
+            table[o] = float(p)
+        kind = op[0]
+        if kind == 'set':
+            assign(self.outcome_of(case, op[1]), op[2])
+        elif kind == 'move':
+            a, b = self.outcome_of(case, op[1]), self.outcome_of(case, op[2])
+            if a == b:
+                return
+            pa, pb = table.get(a, 0.0), table.get(b, 0.0)
+            delta = pa if op[3] == 1.0 else pa * op[3]
+            assign(a, pa - delta)
+            assign(b, pb + delta)
+        elif kind == 'swap':
+            a, b = self.outcome_of(case, op[1]), self.outcome_of(case, op[2])
+            pa, pb = table.get(a, 0.0), table.get(b, 0.0)
+            if a == b:
+                return
+            assign(a, pb)
+            assign(b, pa)
+        elif kind == 'del':
+            o = self.outcome_of(case, op[1])
+            if o not in table and o not in d.outcomes:
+                return                                         # nothing to delete (not part of this check)
+            del d[o]
+            table.pop(o, None)
+        elif kind == 'normalize':
+            z = math.fsum(table.values())
+            if not (z > 0):
+                r.features.append('normalize-skipped')
+                return
+            d.normalize()
+            for o in table:
+                table[o] = table[o] / z
+        elif kind == 'pmfwrite':
+            outs = list(d.outcomes)
+            ws = [float(w) for w in op[1][:len(outs)]]
+            if not outs:
+                return
+            if not (sum(ws) > 0):
+                ws[0] = 1.0
+            z = sum(ws)
+            ps = [w / z for w in ws] + [0.0] * (len(outs) - len(ws))
+            d.pmf[:] = [val(p) for p in ps]
+            table.clear()
+            table.update(zip(outs, ps))
+        elif kind == 'setbase':
+            d.set_base(op[1])
+        else:
+            raise ValueError(op)
+        applied.append(op if kind != 'pmfwrite' else ['pmfwrite', op[1][:len(d.outcomes)]])
+        r.features.append('edit=%s' % kind)
 
 
 PROP = C12()
